@@ -8,51 +8,51 @@ package codec
 
 import "reflect"
 
-// VerifCacheEntry is one published cache entry: the key it is filed under and the rtid recorded inside
+// VerifC06CacheEntry is one published cache entry: the key it is filed under and the rtid recorded inside
 // the value it maps to (typeInfo.rtid, or fn.i.ti.rtid for the function caches).
-type VerifCacheEntry struct {
+type VerifC06CacheEntry struct {
 	Rtid  uintptr
 	Inner uintptr
 	Nil   bool // the value pointer (or its typeInfo) is nil
 }
 
-// VerifCache is the slice currently published for one cache of a Handle.
-type VerifCache struct {
+// VerifC06Cache is the slice currently published for one cache of a Handle.
+type VerifC06Cache struct {
 	Name    string
-	Entries []VerifCacheEntry
+	Entries []VerifC06CacheEntry
 }
 
-// VerifRtid is the cache key of a type.
-func VerifRtid(t reflect.Type) uintptr { return rt2id(t) }
+// VerifC06Rtid is the cache key of a type.
+func VerifC06Rtid(t reflect.Type) uintptr { return rt2id(t) }
 
-// VerifHandleInited reports the one-time-init flag.
-func VerifHandleInited(h Handle) bool { return h.getBasicHandle().isInited() }
+// VerifC06HandleInited reports the one-time-init flag.
+func VerifC06HandleInited(h Handle) bool { return h.getBasicHandle().isInited() }
 
-func verifTiEntry(rtid uintptr, ti *typeInfo) VerifCacheEntry {
+func verifTiEntry(rtid uintptr, ti *typeInfo) VerifC06CacheEntry {
 	if ti == nil {
-		return VerifCacheEntry{Rtid: rtid, Nil: true}
+		return VerifC06CacheEntry{Rtid: rtid, Nil: true}
 	}
-	return VerifCacheEntry{Rtid: rtid, Inner: ti.rtid}
+	return VerifC06CacheEntry{Rtid: rtid, Inner: ti.rtid}
 }
 
-// VerifCacheSnapshot returns the published TypeInfos slice and the eight rtidFns slices of h.
-func VerifCacheSnapshot(h Handle) (out []VerifCache) {
+// VerifC06CacheSnapshot returns the published TypeInfos slice and the eight rtidFns slices of h.
+func VerifC06CacheSnapshot(h Handle) (out []VerifC06Cache) {
 	bh := h.getBasicHandle()
-	ti := VerifCache{Name: "typeinfos"}
+	ti := VerifC06Cache{Name: "typeinfos"}
 	if sp := bh.typeInfos().infos.Load(); sp != nil {
 		for _, e := range *sp {
 			ti.Entries = append(ti.Entries, verifTiEntry(e.rtid, e.ti))
 		}
 	}
 	out = append(out, ti)
-	add := func(name string, es []VerifCacheEntry) { out = append(out, VerifCache{Name: name, Entries: es}) }
+	add := func(name string, es []VerifC06CacheEntry) { out = append(out, VerifC06Cache{Name: name, Entries: es}) }
 	switch h.(type) {
 	case *JsonHandle:
 		{
-			var es []VerifCacheEntry
+			var es []VerifC06CacheEntry
 			for _, e := range (helperEncDriverJsonBytes{}).encFromRtidFnSlice(&bh.rtidFnsEncBytes) {
 				if e.fn == nil {
-					es = append(es, VerifCacheEntry{Rtid: e.rtid, Nil: true})
+					es = append(es, VerifC06CacheEntry{Rtid: e.rtid, Nil: true})
 				} else {
 					es = append(es, verifTiEntry(e.rtid, e.fn.i.ti))
 				}
@@ -60,10 +60,10 @@ func VerifCacheSnapshot(h Handle) (out []VerifCache) {
 			add("encBytes", es)
 		}
 		{
-			var es []VerifCacheEntry
+			var es []VerifC06CacheEntry
 			for _, e := range (helperEncDriverJsonBytes{}).encFromRtidFnSlice(&bh.rtidFnsEncNoExtBytes) {
 				if e.fn == nil {
-					es = append(es, VerifCacheEntry{Rtid: e.rtid, Nil: true})
+					es = append(es, VerifC06CacheEntry{Rtid: e.rtid, Nil: true})
 				} else {
 					es = append(es, verifTiEntry(e.rtid, e.fn.i.ti))
 				}
@@ -71,10 +71,10 @@ func VerifCacheSnapshot(h Handle) (out []VerifCache) {
 			add("encNoExtBytes", es)
 		}
 		{
-			var es []VerifCacheEntry
+			var es []VerifC06CacheEntry
 			for _, e := range (helperEncDriverJsonIO{}).encFromRtidFnSlice(&bh.rtidFnsEncIO) {
 				if e.fn == nil {
-					es = append(es, VerifCacheEntry{Rtid: e.rtid, Nil: true})
+					es = append(es, VerifC06CacheEntry{Rtid: e.rtid, Nil: true})
 				} else {
 					es = append(es, verifTiEntry(e.rtid, e.fn.i.ti))
 				}
@@ -82,10 +82,10 @@ func VerifCacheSnapshot(h Handle) (out []VerifCache) {
 			add("encIO", es)
 		}
 		{
-			var es []VerifCacheEntry
+			var es []VerifC06CacheEntry
 			for _, e := range (helperEncDriverJsonIO{}).encFromRtidFnSlice(&bh.rtidFnsEncNoExtIO) {
 				if e.fn == nil {
-					es = append(es, VerifCacheEntry{Rtid: e.rtid, Nil: true})
+					es = append(es, VerifC06CacheEntry{Rtid: e.rtid, Nil: true})
 				} else {
 					es = append(es, verifTiEntry(e.rtid, e.fn.i.ti))
 				}
@@ -93,10 +93,10 @@ func VerifCacheSnapshot(h Handle) (out []VerifCache) {
 			add("encNoExtIO", es)
 		}
 		{
-			var es []VerifCacheEntry
+			var es []VerifC06CacheEntry
 			for _, e := range (helperDecDriverJsonBytes{}).decFromRtidFnSlice(&bh.rtidFnsDecBytes) {
 				if e.fn == nil {
-					es = append(es, VerifCacheEntry{Rtid: e.rtid, Nil: true})
+					es = append(es, VerifC06CacheEntry{Rtid: e.rtid, Nil: true})
 				} else {
 					es = append(es, verifTiEntry(e.rtid, e.fn.i.ti))
 				}
@@ -104,10 +104,10 @@ func VerifCacheSnapshot(h Handle) (out []VerifCache) {
 			add("decBytes", es)
 		}
 		{
-			var es []VerifCacheEntry
+			var es []VerifC06CacheEntry
 			for _, e := range (helperDecDriverJsonBytes{}).decFromRtidFnSlice(&bh.rtidFnsDecNoExtBytes) {
 				if e.fn == nil {
-					es = append(es, VerifCacheEntry{Rtid: e.rtid, Nil: true})
+					es = append(es, VerifC06CacheEntry{Rtid: e.rtid, Nil: true})
 				} else {
 					es = append(es, verifTiEntry(e.rtid, e.fn.i.ti))
 				}
@@ -115,10 +115,10 @@ func VerifCacheSnapshot(h Handle) (out []VerifCache) {
 			add("decNoExtBytes", es)
 		}
 		{
-			var es []VerifCacheEntry
+			var es []VerifC06CacheEntry
 			for _, e := range (helperDecDriverJsonIO{}).decFromRtidFnSlice(&bh.rtidFnsDecIO) {
 				if e.fn == nil {
-					es = append(es, VerifCacheEntry{Rtid: e.rtid, Nil: true})
+					es = append(es, VerifC06CacheEntry{Rtid: e.rtid, Nil: true})
 				} else {
 					es = append(es, verifTiEntry(e.rtid, e.fn.i.ti))
 				}
@@ -126,10 +126,10 @@ func VerifCacheSnapshot(h Handle) (out []VerifCache) {
 			add("decIO", es)
 		}
 		{
-			var es []VerifCacheEntry
+			var es []VerifC06CacheEntry
 			for _, e := range (helperDecDriverJsonIO{}).decFromRtidFnSlice(&bh.rtidFnsDecNoExtIO) {
 				if e.fn == nil {
-					es = append(es, VerifCacheEntry{Rtid: e.rtid, Nil: true})
+					es = append(es, VerifC06CacheEntry{Rtid: e.rtid, Nil: true})
 				} else {
 					es = append(es, verifTiEntry(e.rtid, e.fn.i.ti))
 				}
@@ -138,10 +138,10 @@ func VerifCacheSnapshot(h Handle) (out []VerifCache) {
 		}
 	case *CborHandle:
 		{
-			var es []VerifCacheEntry
+			var es []VerifC06CacheEntry
 			for _, e := range (helperEncDriverCborBytes{}).encFromRtidFnSlice(&bh.rtidFnsEncBytes) {
 				if e.fn == nil {
-					es = append(es, VerifCacheEntry{Rtid: e.rtid, Nil: true})
+					es = append(es, VerifC06CacheEntry{Rtid: e.rtid, Nil: true})
 				} else {
 					es = append(es, verifTiEntry(e.rtid, e.fn.i.ti))
 				}
@@ -149,10 +149,10 @@ func VerifCacheSnapshot(h Handle) (out []VerifCache) {
 			add("encBytes", es)
 		}
 		{
-			var es []VerifCacheEntry
+			var es []VerifC06CacheEntry
 			for _, e := range (helperEncDriverCborBytes{}).encFromRtidFnSlice(&bh.rtidFnsEncNoExtBytes) {
 				if e.fn == nil {
-					es = append(es, VerifCacheEntry{Rtid: e.rtid, Nil: true})
+					es = append(es, VerifC06CacheEntry{Rtid: e.rtid, Nil: true})
 				} else {
 					es = append(es, verifTiEntry(e.rtid, e.fn.i.ti))
 				}
@@ -160,10 +160,10 @@ func VerifCacheSnapshot(h Handle) (out []VerifCache) {
 			add("encNoExtBytes", es)
 		}
 		{
-			var es []VerifCacheEntry
+			var es []VerifC06CacheEntry
 			for _, e := range (helperEncDriverCborIO{}).encFromRtidFnSlice(&bh.rtidFnsEncIO) {
 				if e.fn == nil {
-					es = append(es, VerifCacheEntry{Rtid: e.rtid, Nil: true})
+					es = append(es, VerifC06CacheEntry{Rtid: e.rtid, Nil: true})
 				} else {
 					es = append(es, verifTiEntry(e.rtid, e.fn.i.ti))
 				}
@@ -171,10 +171,10 @@ func VerifCacheSnapshot(h Handle) (out []VerifCache) {
 			add("encIO", es)
 		}
 		{
-			var es []VerifCacheEntry
+			var es []VerifC06CacheEntry
 			for _, e := range (helperEncDriverCborIO{}).encFromRtidFnSlice(&bh.rtidFnsEncNoExtIO) {
 				if e.fn == nil {
-					es = append(es, VerifCacheEntry{Rtid: e.rtid, Nil: true})
+					es = append(es, VerifC06CacheEntry{Rtid: e.rtid, Nil: true})
 				} else {
 					es = append(es, verifTiEntry(e.rtid, e.fn.i.ti))
 				}
@@ -182,10 +182,10 @@ func VerifCacheSnapshot(h Handle) (out []VerifCache) {
 			add("encNoExtIO", es)
 		}
 		{
-			var es []VerifCacheEntry
+			var es []VerifC06CacheEntry
 			for _, e := range (helperDecDriverCborBytes{}).decFromRtidFnSlice(&bh.rtidFnsDecBytes) {
 				if e.fn == nil {
-					es = append(es, VerifCacheEntry{Rtid: e.rtid, Nil: true})
+					es = append(es, VerifC06CacheEntry{Rtid: e.rtid, Nil: true})
 				} else {
 					es = append(es, verifTiEntry(e.rtid, e.fn.i.ti))
 				}
@@ -193,10 +193,10 @@ func VerifCacheSnapshot(h Handle) (out []VerifCache) {
 			add("decBytes", es)
 		}
 		{
-			var es []VerifCacheEntry
+			var es []VerifC06CacheEntry
 			for _, e := range (helperDecDriverCborBytes{}).decFromRtidFnSlice(&bh.rtidFnsDecNoExtBytes) {
 				if e.fn == nil {
-					es = append(es, VerifCacheEntry{Rtid: e.rtid, Nil: true})
+					es = append(es, VerifC06CacheEntry{Rtid: e.rtid, Nil: true})
 				} else {
 					es = append(es, verifTiEntry(e.rtid, e.fn.i.ti))
 				}
@@ -204,10 +204,10 @@ func VerifCacheSnapshot(h Handle) (out []VerifCache) {
 			add("decNoExtBytes", es)
 		}
 		{
-			var es []VerifCacheEntry
+			var es []VerifC06CacheEntry
 			for _, e := range (helperDecDriverCborIO{}).decFromRtidFnSlice(&bh.rtidFnsDecIO) {
 				if e.fn == nil {
-					es = append(es, VerifCacheEntry{Rtid: e.rtid, Nil: true})
+					es = append(es, VerifC06CacheEntry{Rtid: e.rtid, Nil: true})
 				} else {
 					es = append(es, verifTiEntry(e.rtid, e.fn.i.ti))
 				}
@@ -215,10 +215,10 @@ func VerifCacheSnapshot(h Handle) (out []VerifCache) {
 			add("decIO", es)
 		}
 		{
-			var es []VerifCacheEntry
+			var es []VerifC06CacheEntry
 			for _, e := range (helperDecDriverCborIO{}).decFromRtidFnSlice(&bh.rtidFnsDecNoExtIO) {
 				if e.fn == nil {
-					es = append(es, VerifCacheEntry{Rtid: e.rtid, Nil: true})
+					es = append(es, VerifC06CacheEntry{Rtid: e.rtid, Nil: true})
 				} else {
 					es = append(es, verifTiEntry(e.rtid, e.fn.i.ti))
 				}
@@ -227,10 +227,10 @@ func VerifCacheSnapshot(h Handle) (out []VerifCache) {
 		}
 	case *MsgpackHandle:
 		{
-			var es []VerifCacheEntry
+			var es []VerifC06CacheEntry
 			for _, e := range (helperEncDriverMsgpackBytes{}).encFromRtidFnSlice(&bh.rtidFnsEncBytes) {
 				if e.fn == nil {
-					es = append(es, VerifCacheEntry{Rtid: e.rtid, Nil: true})
+					es = append(es, VerifC06CacheEntry{Rtid: e.rtid, Nil: true})
 				} else {
 					es = append(es, verifTiEntry(e.rtid, e.fn.i.ti))
 				}
@@ -238,10 +238,10 @@ func VerifCacheSnapshot(h Handle) (out []VerifCache) {
 			add("encBytes", es)
 		}
 		{
-			var es []VerifCacheEntry
+			var es []VerifC06CacheEntry
 			for _, e := range (helperEncDriverMsgpackBytes{}).encFromRtidFnSlice(&bh.rtidFnsEncNoExtBytes) {
 				if e.fn == nil {
-					es = append(es, VerifCacheEntry{Rtid: e.rtid, Nil: true})
+					es = append(es, VerifC06CacheEntry{Rtid: e.rtid, Nil: true})
 				} else {
 					es = append(es, verifTiEntry(e.rtid, e.fn.i.ti))
 				}
@@ -249,10 +249,10 @@ func VerifCacheSnapshot(h Handle) (out []VerifCache) {
 			add("encNoExtBytes", es)
 		}
 		{
-			var es []VerifCacheEntry
+			var es []VerifC06CacheEntry
 			for _, e := range (helperEncDriverMsgpackIO{}).encFromRtidFnSlice(&bh.rtidFnsEncIO) {
 				if e.fn == nil {
-					es = append(es, VerifCacheEntry{Rtid: e.rtid, Nil: true})
+					es = append(es, VerifC06CacheEntry{Rtid: e.rtid, Nil: true})
 				} else {
 					es = append(es, verifTiEntry(e.rtid, e.fn.i.ti))
 				}
@@ -260,10 +260,10 @@ func VerifCacheSnapshot(h Handle) (out []VerifCache) {
 			add("encIO", es)
 		}
 		{
-			var es []VerifCacheEntry
+			var es []VerifC06CacheEntry
 			for _, e := range (helperEncDriverMsgpackIO{}).encFromRtidFnSlice(&bh.rtidFnsEncNoExtIO) {
 				if e.fn == nil {
-					es = append(es, VerifCacheEntry{Rtid: e.rtid, Nil: true})
+					es = append(es, VerifC06CacheEntry{Rtid: e.rtid, Nil: true})
 				} else {
 					es = append(es, verifTiEntry(e.rtid, e.fn.i.ti))
 				}
@@ -271,10 +271,10 @@ func VerifCacheSnapshot(h Handle) (out []VerifCache) {
 			add("encNoExtIO", es)
 		}
 		{
-			var es []VerifCacheEntry
+			var es []VerifC06CacheEntry
 			for _, e := range (helperDecDriverMsgpackBytes{}).decFromRtidFnSlice(&bh.rtidFnsDecBytes) {
 				if e.fn == nil {
-					es = append(es, VerifCacheEntry{Rtid: e.rtid, Nil: true})
+					es = append(es, VerifC06CacheEntry{Rtid: e.rtid, Nil: true})
 				} else {
 					es = append(es, verifTiEntry(e.rtid, e.fn.i.ti))
 				}
@@ -282,10 +282,10 @@ func VerifCacheSnapshot(h Handle) (out []VerifCache) {
 			add("decBytes", es)
 		}
 		{
-			var es []VerifCacheEntry
+			var es []VerifC06CacheEntry
 			for _, e := range (helperDecDriverMsgpackBytes{}).decFromRtidFnSlice(&bh.rtidFnsDecNoExtBytes) {
 				if e.fn == nil {
-					es = append(es, VerifCacheEntry{Rtid: e.rtid, Nil: true})
+					es = append(es, VerifC06CacheEntry{Rtid: e.rtid, Nil: true})
 				} else {
 					es = append(es, verifTiEntry(e.rtid, e.fn.i.ti))
 				}
@@ -293,10 +293,10 @@ func VerifCacheSnapshot(h Handle) (out []VerifCache) {
 			add("decNoExtBytes", es)
 		}
 		{
-			var es []VerifCacheEntry
+			var es []VerifC06CacheEntry
 			for _, e := range (helperDecDriverMsgpackIO{}).decFromRtidFnSlice(&bh.rtidFnsDecIO) {
 				if e.fn == nil {
-					es = append(es, VerifCacheEntry{Rtid: e.rtid, Nil: true})
+					es = append(es, VerifC06CacheEntry{Rtid: e.rtid, Nil: true})
 				} else {
 					es = append(es, verifTiEntry(e.rtid, e.fn.i.ti))
 				}
@@ -304,10 +304,10 @@ func VerifCacheSnapshot(h Handle) (out []VerifCache) {
 			add("decIO", es)
 		}
 		{
-			var es []VerifCacheEntry
+			var es []VerifC06CacheEntry
 			for _, e := range (helperDecDriverMsgpackIO{}).decFromRtidFnSlice(&bh.rtidFnsDecNoExtIO) {
 				if e.fn == nil {
-					es = append(es, VerifCacheEntry{Rtid: e.rtid, Nil: true})
+					es = append(es, VerifC06CacheEntry{Rtid: e.rtid, Nil: true})
 				} else {
 					es = append(es, verifTiEntry(e.rtid, e.fn.i.ti))
 				}
@@ -316,10 +316,10 @@ func VerifCacheSnapshot(h Handle) (out []VerifCache) {
 		}
 	case *BincHandle:
 		{
-			var es []VerifCacheEntry
+			var es []VerifC06CacheEntry
 			for _, e := range (helperEncDriverBincBytes{}).encFromRtidFnSlice(&bh.rtidFnsEncBytes) {
 				if e.fn == nil {
-					es = append(es, VerifCacheEntry{Rtid: e.rtid, Nil: true})
+					es = append(es, VerifC06CacheEntry{Rtid: e.rtid, Nil: true})
 				} else {
 					es = append(es, verifTiEntry(e.rtid, e.fn.i.ti))
 				}
@@ -327,10 +327,10 @@ func VerifCacheSnapshot(h Handle) (out []VerifCache) {
 			add("encBytes", es)
 		}
 		{
-			var es []VerifCacheEntry
+			var es []VerifC06CacheEntry
 			for _, e := range (helperEncDriverBincBytes{}).encFromRtidFnSlice(&bh.rtidFnsEncNoExtBytes) {
 				if e.fn == nil {
-					es = append(es, VerifCacheEntry{Rtid: e.rtid, Nil: true})
+					es = append(es, VerifC06CacheEntry{Rtid: e.rtid, Nil: true})
 				} else {
 					es = append(es, verifTiEntry(e.rtid, e.fn.i.ti))
 				}
@@ -338,10 +338,10 @@ func VerifCacheSnapshot(h Handle) (out []VerifCache) {
 			add("encNoExtBytes", es)
 		}
 		{
-			var es []VerifCacheEntry
+			var es []VerifC06CacheEntry
 			for _, e := range (helperEncDriverBincIO{}).encFromRtidFnSlice(&bh.rtidFnsEncIO) {
 				if e.fn == nil {
-					es = append(es, VerifCacheEntry{Rtid: e.rtid, Nil: true})
+					es = append(es, VerifC06CacheEntry{Rtid: e.rtid, Nil: true})
 				} else {
 					es = append(es, verifTiEntry(e.rtid, e.fn.i.ti))
 				}
@@ -349,10 +349,10 @@ func VerifCacheSnapshot(h Handle) (out []VerifCache) {
 			add("encIO", es)
 		}
 		{
-			var es []VerifCacheEntry
+			var es []VerifC06CacheEntry
 			for _, e := range (helperEncDriverBincIO{}).encFromRtidFnSlice(&bh.rtidFnsEncNoExtIO) {
 				if e.fn == nil {
-					es = append(es, VerifCacheEntry{Rtid: e.rtid, Nil: true})
+					es = append(es, VerifC06CacheEntry{Rtid: e.rtid, Nil: true})
 				} else {
 					es = append(es, verifTiEntry(e.rtid, e.fn.i.ti))
 				}
@@ -360,10 +360,10 @@ func VerifCacheSnapshot(h Handle) (out []VerifCache) {
 			add("encNoExtIO", es)
 		}
 		{
-			var es []VerifCacheEntry
+			var es []VerifC06CacheEntry
 			for _, e := range (helperDecDriverBincBytes{}).decFromRtidFnSlice(&bh.rtidFnsDecBytes) {
 				if e.fn == nil {
-					es = append(es, VerifCacheEntry{Rtid: e.rtid, Nil: true})
+					es = append(es, VerifC06CacheEntry{Rtid: e.rtid, Nil: true})
 				} else {
 					es = append(es, verifTiEntry(e.rtid, e.fn.i.ti))
 				}
@@ -371,10 +371,10 @@ func VerifCacheSnapshot(h Handle) (out []VerifCache) {
 			add("decBytes", es)
 		}
 		{
-			var es []VerifCacheEntry
+			var es []VerifC06CacheEntry
 			for _, e := range (helperDecDriverBincBytes{}).decFromRtidFnSlice(&bh.rtidFnsDecNoExtBytes) {
 				if e.fn == nil {
-					es = append(es, VerifCacheEntry{Rtid: e.rtid, Nil: true})
+					es = append(es, VerifC06CacheEntry{Rtid: e.rtid, Nil: true})
 				} else {
 					es = append(es, verifTiEntry(e.rtid, e.fn.i.ti))
 				}
@@ -382,10 +382,10 @@ func VerifCacheSnapshot(h Handle) (out []VerifCache) {
 			add("decNoExtBytes", es)
 		}
 		{
-			var es []VerifCacheEntry
+			var es []VerifC06CacheEntry
 			for _, e := range (helperDecDriverBincIO{}).decFromRtidFnSlice(&bh.rtidFnsDecIO) {
 				if e.fn == nil {
-					es = append(es, VerifCacheEntry{Rtid: e.rtid, Nil: true})
+					es = append(es, VerifC06CacheEntry{Rtid: e.rtid, Nil: true})
 				} else {
 					es = append(es, verifTiEntry(e.rtid, e.fn.i.ti))
 				}
@@ -393,10 +393,10 @@ func VerifCacheSnapshot(h Handle) (out []VerifCache) {
 			add("decIO", es)
 		}
 		{
-			var es []VerifCacheEntry
+			var es []VerifC06CacheEntry
 			for _, e := range (helperDecDriverBincIO{}).decFromRtidFnSlice(&bh.rtidFnsDecNoExtIO) {
 				if e.fn == nil {
-					es = append(es, VerifCacheEntry{Rtid: e.rtid, Nil: true})
+					es = append(es, VerifC06CacheEntry{Rtid: e.rtid, Nil: true})
 				} else {
 					es = append(es, verifTiEntry(e.rtid, e.fn.i.ti))
 				}
@@ -405,10 +405,10 @@ func VerifCacheSnapshot(h Handle) (out []VerifCache) {
 		}
 	case *SimpleHandle:
 		{
-			var es []VerifCacheEntry
+			var es []VerifC06CacheEntry
 			for _, e := range (helperEncDriverSimpleBytes{}).encFromRtidFnSlice(&bh.rtidFnsEncBytes) {
 				if e.fn == nil {
-					es = append(es, VerifCacheEntry{Rtid: e.rtid, Nil: true})
+					es = append(es, VerifC06CacheEntry{Rtid: e.rtid, Nil: true})
 				} else {
 					es = append(es, verifTiEntry(e.rtid, e.fn.i.ti))
 				}
@@ -416,10 +416,10 @@ func VerifCacheSnapshot(h Handle) (out []VerifCache) {
 			add("encBytes", es)
 		}
 		{
-			var es []VerifCacheEntry
+			var es []VerifC06CacheEntry
 			for _, e := range (helperEncDriverSimpleBytes{}).encFromRtidFnSlice(&bh.rtidFnsEncNoExtBytes) {
 				if e.fn == nil {
-					es = append(es, VerifCacheEntry{Rtid: e.rtid, Nil: true})
+					es = append(es, VerifC06CacheEntry{Rtid: e.rtid, Nil: true})
 				} else {
 					es = append(es, verifTiEntry(e.rtid, e.fn.i.ti))
 				}
@@ -427,10 +427,10 @@ func VerifCacheSnapshot(h Handle) (out []VerifCache) {
 			add("encNoExtBytes", es)
 		}
 		{
-			var es []VerifCacheEntry
+			var es []VerifC06CacheEntry
 			for _, e := range (helperEncDriverSimpleIO{}).encFromRtidFnSlice(&bh.rtidFnsEncIO) {
 				if e.fn == nil {
-					es = append(es, VerifCacheEntry{Rtid: e.rtid, Nil: true})
+					es = append(es, VerifC06CacheEntry{Rtid: e.rtid, Nil: true})
 				} else {
 					es = append(es, verifTiEntry(e.rtid, e.fn.i.ti))
 				}
@@ -438,10 +438,10 @@ func VerifCacheSnapshot(h Handle) (out []VerifCache) {
 			add("encIO", es)
 		}
 		{
-			var es []VerifCacheEntry
+			var es []VerifC06CacheEntry
 			for _, e := range (helperEncDriverSimpleIO{}).encFromRtidFnSlice(&bh.rtidFnsEncNoExtIO) {
 				if e.fn == nil {
-					es = append(es, VerifCacheEntry{Rtid: e.rtid, Nil: true})
+					es = append(es, VerifC06CacheEntry{Rtid: e.rtid, Nil: true})
 				} else {
 					es = append(es, verifTiEntry(e.rtid, e.fn.i.ti))
 				}
@@ -449,10 +449,10 @@ func VerifCacheSnapshot(h Handle) (out []VerifCache) {
 			add("encNoExtIO", es)
 		}
 		{
-			var es []VerifCacheEntry
+			var es []VerifC06CacheEntry
 			for _, e := range (helperDecDriverSimpleBytes{}).decFromRtidFnSlice(&bh.rtidFnsDecBytes) {
 				if e.fn == nil {
-					es = append(es, VerifCacheEntry{Rtid: e.rtid, Nil: true})
+					es = append(es, VerifC06CacheEntry{Rtid: e.rtid, Nil: true})
 				} else {
 					es = append(es, verifTiEntry(e.rtid, e.fn.i.ti))
 				}
@@ -460,10 +460,10 @@ func VerifCacheSnapshot(h Handle) (out []VerifCache) {
 			add("decBytes", es)
 		}
 		{
-			var es []VerifCacheEntry
+			var es []VerifC06CacheEntry
 			for _, e := range (helperDecDriverSimpleBytes{}).decFromRtidFnSlice(&bh.rtidFnsDecNoExtBytes) {
 				if e.fn == nil {
-					es = append(es, VerifCacheEntry{Rtid: e.rtid, Nil: true})
+					es = append(es, VerifC06CacheEntry{Rtid: e.rtid, Nil: true})
 				} else {
 					es = append(es, verifTiEntry(e.rtid, e.fn.i.ti))
 				}
@@ -471,10 +471,10 @@ func VerifCacheSnapshot(h Handle) (out []VerifCache) {
 			add("decNoExtBytes", es)
 		}
 		{
-			var es []VerifCacheEntry
+			var es []VerifC06CacheEntry
 			for _, e := range (helperDecDriverSimpleIO{}).decFromRtidFnSlice(&bh.rtidFnsDecIO) {
 				if e.fn == nil {
-					es = append(es, VerifCacheEntry{Rtid: e.rtid, Nil: true})
+					es = append(es, VerifC06CacheEntry{Rtid: e.rtid, Nil: true})
 				} else {
 					es = append(es, verifTiEntry(e.rtid, e.fn.i.ti))
 				}
@@ -482,10 +482,10 @@ func VerifCacheSnapshot(h Handle) (out []VerifCache) {
 			add("decIO", es)
 		}
 		{
-			var es []VerifCacheEntry
+			var es []VerifC06CacheEntry
 			for _, e := range (helperDecDriverSimpleIO{}).decFromRtidFnSlice(&bh.rtidFnsDecNoExtIO) {
 				if e.fn == nil {
-					es = append(es, VerifCacheEntry{Rtid: e.rtid, Nil: true})
+					es = append(es, VerifC06CacheEntry{Rtid: e.rtid, Nil: true})
 				} else {
 					es = append(es, verifTiEntry(e.rtid, e.fn.i.ti))
 				}
